@@ -146,11 +146,18 @@ double __CPROVER_uninterpreted_fadd64(double, double, int); double __CPROVER_uni
 #include <math.h>
 static inline float avm_sqrtf(float x) { return sqrtf(x); }
 static inline double avm_sqrt(double x) { return sqrt(x); }
+#include <fenv.h>
+static inline int avm_fe_of(int rc) { return rc == 0 ? FE_TONEAREST : rc == 1 ? FE_DOWNWARD : rc == 2 ? FE_UPWARD : FE_TOWARDZERO; }
+static inline float avm_sqrtf_er(float x, int r) { if (r & 4) return sqrtf(x); int o = fegetround(); fesetround(avm_fe_of(r & 3)); volatile float vx = x; float y = sqrtf(vx); fesetround(o); return y; }
+static inline double avm_sqrt_er(double x, int r) { if (r & 4) return sqrt(x); int o = fegetround(); fesetround(avm_fe_of(r & 3)); volatile double vx = x; double y = sqrt(vx); fesetround(o); return y; }
 #else
 float __CPROVER_uninterpreted_sqrtf(float, int);
 double __CPROVER_uninterpreted_sqrt(double, int);
 static inline float avm_sqrtf(float x) { return __CPROVER_uninterpreted_sqrtf(x, __CPROVER_rounding_mode); }
 static inline double avm_sqrt(double x) { return __CPROVER_uninterpreted_sqrt(x, __CPROVER_rounding_mode); }
+/* embedded-rounding forms ({er}: _MM_FROUND_CUR_DIRECTION = 4 -> MXCSR.RC, otherwise the static mode in bits 1:0) */
+static inline float avm_sqrtf_er(float x, int r) { return __CPROVER_uninterpreted_sqrtf(x, (r & 4) ? __CPROVER_rounding_mode : (r & 3)); }
+static inline double avm_sqrt_er(double x, int r) { return __CPROVER_uninterpreted_sqrt(x, (r & 4) ? __CPROVER_rounding_mode : (r & 3)); }
 #endif
 
 /* ghost: number of elements of the object handed to gather / scatter (set by the harness, read by the contract) */
